@@ -34,6 +34,21 @@ def run(patch, tier="quick"):
         shutil.rmtree(scratch, ignore_errors=True)
 
 
+def write_index():
+    """INDEX.md: one line per change, from the meta.json files."""
+    lines = ["| id | outcome of the quick check | first reported violation |", "|---|---|---|"]
+    for name in sorted(os.listdir(SEEDED)):
+        mp = os.path.join(SEEDED, name, "meta.json")
+        if not os.path.exists(mp):
+            continue
+        m = json.load(open(mp))
+        res = m.get("result", {})
+        first = (res.get("violations") or [""])[0].replace("|", "/")[:170]
+        lines.append("| %s | exit %s in %ss | %s |" % (name, res.get("exit"), res.get("wall_s"), first))
+    with open(os.path.join(SEEDED, "INDEX.md"), "w") as f:
+        f.write("\n".join(lines) + "\n")
+
+
 def main():
     want = sys.argv[1:]
     rows = []
@@ -64,6 +79,7 @@ def main():
             json.dump(meta, f, indent=1)
         rows.append((name, res.get("exit"), res.get("wall_s"), (res.get("violations") or [""])[0][:160]))
         print("%-55s exit=%s %ss %s" % rows[-1])
+    write_index()
     missed = [r for r in rows if r[1] != 0]
     print("%d property-preserving changes, %d quiet, %d alarms" % (len(rows), len(rows) - len(missed), len(missed)))
     return 1 if missed else 0
